@@ -79,3 +79,13 @@ Theorem C03_chord_notes_conserved : forall D notes, 2 <= List.length notes -> ch
   kern_recognise (str (print_chord notes)) = KTok (TChord (str (print_chord notes)) (map (chord_note D) notes)).
 Proof. exact recognise_print_chord. Qed.
 Print Assumptions C03_chord_notes_conserved.
+
+(* the exported TEXT holds the exported grid: reading back what the exporter writes returns its rows cell for cell
+   (rows made only of "", "*", "." are not written), whatever the cells hold besides tab / LF / CR *)
+From KV Require Import Importer Exporter LineReaderProofs ReadBackProofs.
+Theorem C03_export_text_is_the_exported_grid : forall rows, (forall r c, In r rows -> In c r -> cell_ok c = true) ->
+  rows_of_file (render_rows rows) = filter (fun r => negb (empty_row r)) rows /\
+  (plain (chars_of_string (render_rows rows)) = true ->
+   rows_of_text (render_rows rows) = filter (fun r => negb (empty_row r)) rows).
+Proof. intros rows H. exact (conj (export_read_back_file rows H) (export_read_back_text rows H)). Qed.
+Print Assumptions C03_export_text_is_the_exported_grid.
